@@ -128,20 +128,21 @@ class Skeleton:
                 inner_edge_triangles[index][::-1] in visited):
                 continue
 
-            edge_0_index = first_last.index(inner_edge_triangles[index]) % num_elements
-            edge_1_index = first_last.index(inner_edge_triangles[(index + 1)]) % num_elements
-            edge_0 = self.all_big_edges[edge_0_index]
-            if len(edge_0) > 3:
+            # the two interfaces that join this pair of vertices, the longer one first
+            same_ends = [e for e in self.all_big_edges if {e[0], e[-1]} == set(inner_edge_triangles[index])]
+            if len(same_ends) != 2:
                 continue
-            edge_1 = self.all_big_edges[edge_1_index]
+            edge_0, edge_1 = sorted(same_ends, key=len, reverse=True)
+            if len(edge_0) != 3 or len(edge_1) != 2:
+                continue
             vertex_id_to_delete = np.setdiff1d(edge_0, edge_1)[0]
 
-            its_cells = self.vertices[vertex_id_to_delete].ownCells
+            its_cells = list(self.vertices[vertex_id_to_delete].ownCells)
             for cell_id in its_cells:
                 self.cells[cell_id].replace_vertex(self.vertices[vertex_id_to_delete],
                                                    self.vertices[edge_0[0]])
 
-            its_edges = self.vertices[vertex_id_to_delete].ownEdges
+            its_edges = list(self.vertices[vertex_id_to_delete].ownEdges)
             for edge_id in its_edges:
                 del self.edges[edge_id]
 
